@@ -598,6 +598,14 @@ func (x *vtx) c17r3() {
 					c.ok("C17.R3", key, "paired incremental update: dataOffset += 3 precedes cursorX+1 on every path", g.posOf(n))
 					continue
 				}
+				// or right after it: before the function returns or calls anything
+				if okAfter, _ := g.MustPassAfter(n, isInc, func(k int) bool {
+					_, isCall := g.Ins[k].(*ssa.Call)
+					return ret(k) || isCall
+				}); okAfter {
+					c.ok("C17.R3", key, "paired incremental update: dataOffset += 3 follows cursorX+1 before any call or return", g.posOf(n))
+					continue
+				}
 			}
 			c.fail("C17.R3", key, "the cursor/viewport changes and the function can return without recomputing dataOffset: later writes land in the wrong cell", g.where(path, 8)...)
 		}
